@@ -108,6 +108,8 @@ def digest(model, base):
         if hasattr(dev, 'collected_parts'):
             d['collected'] = [[nname(p.name), norm(p.id), [nname(x.name) for x in p.routing_history]]
                               for p in dev.collected_parts]
+        if hasattr(dev, 'last_sense') and isinstance(getattr(dev, 'data', None), dict):
+            d['sensor'] = [[k if isinstance(k, str) else 'probe', list(v)] for k, v in dev.data.items()]
         if hasattr(dev, '_part'):
             d['holding'] = [nname(p.name) if p is not None else None for p in (dev._part, dev._output)]
         devs[did] = d
@@ -541,7 +543,8 @@ def run(sh):
         # (three copy instants per generated model)
         seed = core.stable_int(sh.seed, 'C14copy', i // 3) % (1 << 30)
         rng = random.Random(seed * 3 + i % 3)
-        spec = modelgen.generate(seed, ['general', 'routing', 'resources', 'faults', 'batching', 'routing'][(i // 3) % 6])
+        spec = modelgen.generate(seed, ['general', 'routing', 'resources', 'faults', 'batching', 'routing'][(i // 3) % 6],
+                                 overrides={'p_scheduler': 0.7})
         total = sum(spec['horizon'])
         spec['horizon'] = [total]
         spec.pop('between', None)
@@ -550,6 +553,26 @@ def run(sh):
         if fails and rng.random() < 0.6:
             cut = rng.choice(fails) + 0.125      # right after a failure (possibly of a machine that is down: its paused
             #                                        events have just been cancelled)
+        # a sensor watching one of the line's devices (its measurements are part of the digest); assets that are not
+        # wired to the line (the maintainer) are created first, as in examples/DataExploration.py
+        spec['items'].sort(key=lambda it: 0 if it['kind'] == 'maintainer' else 1)
+        watch = [it['id'] for it in spec['items'] if it['kind'] in ('processor', 'sink', 'source')]
+        if watch:
+            tgt = rng.choice(watch)
+            kind = next(it['kind'] for it in spec['items'] if it['id'] == tgt)
+            attrs = {'processor': ['utilization_time', 'uptime'], 'sink': ['received_parts_count'],
+                     'source': ['produced_parts']}[kind]
+            spec['items'].append({'id': 'PSX', 'kind': 'psensor', 'interval': rng.choice([0.25, 0.5, 0.125]),
+                                  'target': tgt, 'attrs': attrs, 'capacity': rng.choice([None, 8])})
+        # registrations of an operating schedule changed after the copy instant (in the copy: on the copied objects)
+        for it in spec['items']:
+            if it['kind'] == 'scheduler' and it.get('targets') and cut + 1 < total:
+                tgt = rng.choice(it['targets'])
+                t1 = cut + rng.randrange(1, max(2, int((total - cut) * 4))) / 8.0
+                spec['script'] = sorted(spec['script'] + [
+                    {'t': t1, 'prio': 10.5, 'op': 'sched_unregister', 'sched': it['id'], 'target': tgt},
+                    {'t': min(total, t1 + rng.choice([1.5, 3, 6])), 'prio': 10.5, 'op': 'sched_register',
+                     'sched': it['id'], 'target': tgt}], key=lambda e: e['t'])
         case = {'engine': 'copy', 'spec': spec, 'seed': seed, 'cut': cut}
         try:
             ref, _, _ = run_model(spec, seed, [cut, total - cut], 'native')
